@@ -48,7 +48,7 @@ func vfC05ScanN(tier int) int {
 	if tier == 0 {
 		return 12
 	}
-	return 18
+	return 16
 }
 
 func vfC05Scan_N(tier int) int { return vfC05ScanN(tier) * len(vfC05Dests) }
@@ -100,7 +100,7 @@ func vfC05Scan(c int) {
 var vfC05Kinds = []uint32{pointType, lineStringType, polygonType, multiPointType, multiLineStringType, multiPolygonType, geometryCollectionType}
 
 func vfC05Counts_N(tier int) int {
-	return len(vfC05Kinds) * 2 * (4 + 4*tier)
+	return len(vfC05Kinds) * 2 * (4 + 2*tier)
 }
 func vfC05Counts_Label(c int) string {
 	k := c % len(vfC05Kinds)
